@@ -1,5 +1,4 @@
-import CMacVerif.Lemmas.PhotonLoop
-import CMacVerif.Lemmas.PhotonSplit
+import CMacVerif.Lemmas.PhotonStart
 import Mathlib.Logic.ExistsUnique
 /-!
 # C01 — every photon packet launched in a task-based photoionization iteration terminates exactly
@@ -43,61 +42,7 @@ theorem batches_total (total : Nat) :
     (batches BUFSZ (total + 1) total).sum = total ∧ ∀ b ∈ batches BUFSZ (total + 1) total, 1 ≤ b ∧ b ≤ BUFSZ :=
   batches_spec BUFSZ (by decide) (total + 1) total (by omega)
 
-/-! ## The start of an iteration -/
-
-/-- the packets of an iteration: `srcIds i` are handed to source copy i, `contIds` to the continuous
-source; together they are the N requested packets 0 … N-1 -/
-def Start (cfg : Cfg) (srcIds : Nat → List Nat) (contIds : List Nat) : Prop :=
-  (((List.range cfg.nsrc).map srcIds).flatten ++ contIds).Perm (List.range cfg.N)
-
-theorem init_weight (cfg : Cfg) (w : Nat → Nat) (srcIds : Nat → List Nat) (contIds : List Nat) :
-    weight cfg w (init srcIds contIds) = sumOver (List.range cfg.nsrc) (fun i => wsum w (srcIds i)) + wsum w contIds := by
-  simp only [weight, init, wsum_nil, taskW_none, bufW_none, sumOver_zero']
-  omega
-
-theorem sumOver_flatten (w : Nat → Nat) (n : Nat) (f : Nat → List Nat) :
-    sumOver (List.range n) (fun i => wsum w (f i)) = wsum w ((List.range n).map f).flatten := by
-  induction (List.range n) with
-  | nil => rfl
-  | cons a l ih =>
-    simp only [sumOver, List.map_cons, List.sum_cons, List.flatten_cons, wsum_append] at ih ⊢
-    omega
-
-theorem wsum_perm (w : Nat → Nat) {a b : List Nat} (h : a.Perm b) : wsum w a = wsum w b := by
-  unfold wsum; exact (h.map w).sum_nat
-
-theorem start_weight {cfg : Cfg} {srcIds : Nat → List Nat} {contIds : List Nat} (h : Start cfg srcIds contIds)
-    (w : Nat → Nat) : weight cfg w (init srcIds contIds) = wsum w (List.range cfg.N) := by
-  rw [init_weight, sumOver_flatten, ← wsum_append]
-  exact wsum_perm w h
-
-theorem start_total {cfg : Cfg} {srcIds : Nat → List Nat} {contIds : List Nat} (h : Start cfg srcIds contIds) :
-    weight cfg (fun _ => 1) (init srcIds contIds) = cfg.N := by
-  rw [start_weight h, wsum_one, List.length_range]
-
-theorem count_range (N p : Nat) : (List.range N).count p = if p < N then 1 else 0 := by
-  split_ifs with h
-  · exact List.count_eq_one_of_mem List.nodup_range (List.mem_range.mpr h)
-  · exact List.count_eq_zero.mpr (by simpa using h)
-
-/-- reachable states -/
-theorem reachable {cfg : Cfg} {srcIds : Nat → List Nat} {contIds : List Nat} (h0 : Start cfg srcIds contIds)
-    {ls : List Label} {s : State} (hrun : run cfg (init srcIds contIds) ls = some s) :
-    Reach cfg (init srcIds contIds) s :=
-  reach_run (start_total h0) ls _ s (reach_init cfg srcIds contIds) hrun
-
 /-! ## Conservation -/
-
-/-- number of packets a task carries itself (source tasks; traversal and re-emission tasks refer to a buffer) -/
-def taskPackets : Option Task → Nat
-  | some ⟨.source _ ids, _⟩ => ids.length
-  | some ⟨.contSource _ _ ids, _⟩ => ids.length
-  | _ => 0
-
-theorem taskPackets_eq (t : Option Task) : taskW (fun _ => 1) t = taskPackets t := by
-  cases t with
-  | none => rfl
-  | some tk => cases tk with | mk k st => cases k <;> simp [taskPackets, wsum_one]
 
 /-- `conservation`: in every reachable state the requested number equals terminated packets + packets
 not yet handed out by the sources + packets of queued/running source tasks + packets in the photon
@@ -198,14 +143,56 @@ theorem after_termination_only_packet_free_tasks {cfg : Cfg} {srcIds : Nat → L
     ∀ t tk, s.tasks t = some tk → (∃ c, tk.kind = .flush c) ∨ (∃ c n, tk.kind = .contSource c n [] ∧ tk.st = .running) :=
   (reach_allDone (reachable h0 hrun) (by rw [start_total h0]; exact hd)).tasks
 
-/-! ## The worker loop: nothing is left behind -/
+/-! ## The cached largest buffer; no stuck state -/
 
-/-- every execution of the threads is an execution of the protocol: all statements above hold in every
-state the threads can reach -/
-theorem loop_reachable {cfg : Cfg} {srcIds : Nat → List Nat} {contIds : List Nat} (h0 : Start cfg srcIds contIds)
-    {ls : List LLabel} {s : LState} (hrun : lrun cfg (linit srcIds contIds) ls = some s) :
-    LInv cfg (init srcIds contIds) s :=
-  lrun_inv (start_total h0) ls _ s (linit_inv cfg srcIds contIds) hrun
+/-- `premature_safe`: the cached (index, size) of the largest active buffer of a subgrid always
+describes a real active buffer of that size, and no active buffer of the subgrid is larger; so a
+premature launch never reads a missing buffer (`_buffers[NEIGHBOUR_OUTSIDE]`) and every subgrid that
+has an active buffer has a non-zero cached size (it will be launched prematurely) -/
+theorem premature_safe {cfg : Cfg} {srcIds : Nat → List Nat} {contIds : List Nat} (h0 : Start cfg srcIds contIds)
+    {ls : List Label} {s : State} (hrun : run cfg (init srcIds contIds) ls = some s) (g : Nat) :
+    ((s.largest g).1 ≠ NDIR → ∃ a buf, s.active g (s.largest g).1 = some a ∧ s.pool a = some buf ∧
+        buf.ids.length = (s.largest g).2 ∧ 0 < (s.largest g).2) ∧
+    (∀ d a, s.active g d = some a → (s.largest g).1 ≠ NDIR ∧ bufLen s.pool a ≤ (s.largest g).2) := by
+  have hi := (reachable h0 hrun).inv
+  have hc := (cache_run ls _ s (init_inv cfg srcIds contIds) (cache_init srcIds contIds) hrun).ok g
+  refine ⟨?_, ?_⟩
+  · intro hne
+    obtain ⟨a, ha, hl⟩ := hc.some hne
+    obtain ⟨buf, hb, hok⟩ := hi.own.live (.act g _) a ha
+    simp only [bufLen, hb] at hl
+    exact ⟨a, buf, ha, hb, hl, by rw [← hl]; exact List.length_pos_iff.mpr hok.1⟩
+  · intro d a ha
+    have hb := hc.bound d a ha
+    obtain ⟨buf, hp, hok⟩ := hi.own.live (.act g d) a ha
+    have : 1 ≤ bufLen s.pool a := by simp only [bufLen, hp]; exact List.length_pos_iff.mpr hok.1
+    refine ⟨?_, hb⟩
+    intro e; have := hc.none e; omega
+
+/-- `no_stuck`: as long as not all requested packets are terminated some label is enabled (a task can
+be taken or committed, a source batch launched, or a premature launch is possible), provided the buffer
+pool and the task table are not exhausted (two free buffers, `nblocks + 1` free task slots) and the grid
+has at least one subgrid / one continuous block. Termination itself (with re-emission: with probability
+one) is not claimed. -/
+theorem no_stuck {cfg : Cfg} {srcIds : Nat → List Nat} {contIds : List Nat} (h0 : Start cfg srcIds contIds)
+    {ls : List Label} {s : State} (hrun : run cfg (init srcIds contIds) ls = some s)
+    (hcap : FreeCap cfg s) (hnorig : 0 < cfg.norig) (hnb : 0 < cfg.nblocks) (hlt : s.done.length < cfg.N) :
+    ∃ l, (step cfg s l).isSome = true := by
+  have hr := reachable h0 hrun
+  have hcache := cache_run ls _ s (init_inv cfg srcIds contIds) (cache_init srcIds contIds) hrun
+  have hcont := contInv_run ls _ s (init_inv cfg srcIds contIds) (contInv_init cfg srcIds contIds) hrun
+  apply no_stuck_of hr.inv hcache hcont hcap hnorig hnb
+  have := hr.wt (fun _ => 1)
+  rw [start_total h0, weight_split, wsum_one] at this
+  omega
+
+/-- the continuous-source counter is exact, the buffers are flushed only when it is zero, and once
+nothing will be sourced any more every non-empty thread-local buffer has a flush task -/
+theorem continuous_bookkeeping {cfg : Cfg} {srcIds : Nat → List Nat} {contIds : List Nat}
+    {ls : List Label} {s : State} (hrun : run cfg (init srcIds contIds) ls = some s) : ContInv cfg s :=
+  contInv_run ls _ s (init_inv cfg srcIds contIds) (contInv_init cfg srcIds contIds) hrun
+
+/-! ## The worker loop: nothing is left behind -/
 
 /-- a task that was taken from a queue is held by a thread that executes it or is about to: no thread
 leaves the loop with a task (a thread that left holds nothing, `Th.exited` carries no task) -/
@@ -399,5 +386,19 @@ example : (run exCfg (init (fun _ => [0, 1, 2]) []) exRun).isSome = true := by d
 
 example : ((run exCfg (init (fun _ => [0, 1, 2]) []) exRun).map fun s => (s.done, s.run)) = some ([2, 1, 0], false) := by
   decide
+
+/-- the same iteration executed by two threads that both run through the worker loop and leave it -/
+def exLoopRun : List LLabel :=
+  [.main (.launchBatch 0 0), .startPoll 0 (some 0), .startPoll 1 none, .topGo 0, .work 0 (.execSource 0 0 1), .enq 0 1,
+   .innerPoll 0 (some 1), .work 0 (.execTraverse 1 [0, 0, 1] [⟨1, 2, 2⟩]), .innerPoll 0 none,
+   .prem 1 0 2, .topPoll 1 (some 2), .work 1 (.execReemit 2 [true, false] 3), .enq 1 3, .innerPoll 1 (some 3),
+   .work 1 (.execTraverse 3 [1] []), .innerPoll 1 none, .checkYes 1, .topExit 1, .checkYes 0, .topExit 0]
+
+example : ((lrun exCfg (linit (fun _ => [0, 1, 2]) []) exLoopRun).map fun s => (s.th 0, s.th 1, s.p.done, s.p.run))
+    = some (.exited, .exited, [2, 1, 0], false) := by decide
+
+/-- the capacity hypothesis of `no_stuck` is satisfiable (start of the example iteration) -/
+example : FreeCap exCfg (init (fun _ => [0, 1, 2]) []) :=
+  ⟨⟨0, 1, by decide, by decide, rfl, by decide, rfl⟩, ⟨[0, 1], rfl, by decide, by intro t ht; exact ⟨by simp at ht; rcases ht with e | e <;> (subst e; decide), rfl⟩⟩⟩
 
 end CMacVerif.Photon
